@@ -14,7 +14,7 @@ from bctmc.tally import Tally
 from bctmc import dtypes
 
 PROPERTY = 'C08'
-RULE = ('on the same families: self-connections on the diagonal change nothing; element types: every routine also on int64 / int32 / uint8 / bool copies of all 3-node digraphs over {0,1} and {0,1,2}, 4-node graphs over {0,1,2}, 5-node binary graphs (same values as for float64; integers must not raise, a boolean matrix may be rejected with TypeError); every free tree on 8-9 nodes under the scan orders of bctmc/trees.py (3354 labelled trees, 0/1); the structured 7-10 node family of bctmc/named.py (binary, lengths {1,2},{1,2,3}, near-tie) and all binary digraphs n<=4 and graphs n<=5; lengths {1,2} on 4-node graphs and 3-node digraphs, {1,2,3} and the near-tie alphabet {1,2,2+2^-20} on 3-node '
+RULE = ('five structured graphs on 144-200 nodes against an exact-integer Brandes oracle (up to 2^64 shortest paths per pair); on the same families: self-connections on the diagonal change nothing; element types: every routine also on int64 / int32 / uint8 / bool copies of all 3-node digraphs over {0,1} and {0,1,2}, 4-node graphs over {0,1,2}, 5-node binary graphs (same values as for float64; integers must not raise, a boolean matrix may be rejected with TypeError); every free tree on 8-9 nodes under the scan orders of bctmc/trees.py (3354 labelled trees, 0/1); the structured 7-10 node family of bctmc/named.py (binary, lengths {1,2},{1,2,3}, near-tie) and all binary digraphs n<=4 and graphs n<=5; lengths {1,2} on 4-node graphs and 3-node digraphs, {1,2,3} and the near-tie alphabet {1,2,2+2^-20} on 3-node '
         'digraphs and binary graphs n=6 (thorough: lengths {1,2} on all 4-node digraphs and 5-node graphs); non-trivial = '
         'graph with a source-target pair joined by >= 2 distinct shortest paths, or with an unreachable ordered pair while '
         'some pair is >= 2 hops apart')
@@ -54,6 +54,7 @@ def plan(ctx):
         tot = ss.dir_count(n, alpha) if directed else ss.und_count(n, alpha)
         for (a, b) in ss.ranges(tot, max(1, min(800, tot // 40))):
             units.append((name, a, b))
+    units += [('large', k, 0) for k in range(len(named.family('large_und')))]
     units += dtypes.units(dtypes.STD_FAMILIES)
     return units
 
@@ -105,7 +106,78 @@ def check_case(t, X, case, binary):
     return nsp_multi or (not fin.all() and bool((D[fin] >= 2).any()) if fin.any() else False)
 
 
+def exact_brandes(A):
+    """node and connection betweenness of a 0/1 matrix with exact integer path counts (they exceed 2^63 on the necklace)."""
+    n = len(A)
+    nb = [np.flatnonzero(A[v]).tolist() for v in range(n)]
+    bc = np.zeros(n)
+    ebc = np.zeros((n, n))
+    dist_sum = 0
+    for s in range(n):
+        sigma = [0] * n
+        dist = [-1] * n
+        pred = [[] for _ in range(n)]
+        sigma[s], dist[s] = 1, 0
+        order, q = [], [s]
+        while q:
+            nq = []
+            for v in q:
+                order.append(v)
+                for w in nb[v]:
+                    if dist[w] < 0:
+                        dist[w] = dist[v] + 1
+                        nq.append(w)
+                    if dist[w] == dist[v] + 1:
+                        sigma[w] += sigma[v]
+                        pred[w].append(v)
+            q = nq
+        delta = [0.0] * n
+        for w in reversed(order):
+            for v in pred[w]:
+                c = (sigma[v] / sigma[w]) * (1.0 + delta[w])
+                ebc[v, w] += c
+                delta[v] += c
+            if w != s:
+                bc[w] += delta[w]
+        dist_sum += sum(d for d in dist if d > 0)
+    return bc, ebc, dist_sum
+
+
+def work_large(idx):
+    t = Tally(PROPERTY)
+    label, X = named.family('large_und')[idx]
+    n = len(X)
+    BC, EBC, dsum = exact_brandes(X)
+    case = {'family': 'named:large_und', 'index': idx, 'graph': label, 'X': 'named:large_und[%d]' % idx}
+    pairs = int(np.count_nonzero(np.isfinite(orc.bfs_dist(X)) & orc.offdiag(n)))
+    for fname, f, kind in (('betweenness_bin', bct.betweenness_bin, 'node'), ('betweenness_wei', bct.betweenness_wei, 'node'),
+                           ('edge_betweenness_bin', bct.edge_betweenness_bin, 'edge'),
+                           ('edge_betweenness_wei', bct.edge_betweenness_wei, 'edge')):
+        st, out = guarded(f, X.copy(), _timeout=600)
+        t.c['evaluations'] += 1
+        if st != 'ok':
+            t.viol(fname, 'raises', case, observed=out)
+            continue
+        if kind == 'node':
+            bc, ebc = np.asarray(out, dtype=float), None
+        else:
+            ebc, bc = np.asarray(out[0], dtype=float), np.asarray(out[1], dtype=float)
+        rel = lambda a, b: np.all(np.abs(a - b) <= 1e-9 * np.maximum(1.0, np.abs(b)))
+        if bc.shape != (n,) or not rel(bc, BC):
+            t.viol(fname, 'node_betweenness', case, observed=bc[:12], expected=BC[:12])
+        if ebc is not None and (ebc.shape != (n, n) or not rel(ebc, EBC)):
+            t.viol(fname, 'edge_betweenness', case, observed=float(np.max(np.abs(ebc - EBC))), expected=0)
+        if not rel(np.sum(bc), float(dsum - pairs)):
+            t.viol(fname, 'node_sum_identity', case, observed=float(np.sum(bc)), expected=dsum - pairs)
+        if ebc is not None and not rel(np.sum(ebc), float(dsum)):
+            t.viol(fname, 'edge_sum_identity', case, observed=float(np.sum(ebc)), expected=dsum)
+    t.c['nontrivial'] += 1
+    return t
+
+
 def work(unit):
+    if unit[0] == 'large':
+        return work_large(unit[1])
     if unit[0] == 'etype':
         return dtypes.work_unit(PROPERTY, ETYPE_FUNCS, unit, selfloop_invariant=('betweenness_bin', 'betweenness_wei', 'edge_betweenness_bin', 'edge_betweenness_wei'))
     name, a, b = unit
@@ -134,5 +206,7 @@ def replay(rec):
         return dtypes.replay(PROPERTY, ETYPE_FUNCS, rec['case'])
     t = Tally(PROPERTY)
     c = rec['case']
+    if c.get('family') == 'named:large_und':
+        return work_large(c['index'])
     check_case(t, np.array(c['X'], dtype=float), c, ('bin' in c['family']) if c['family'].startswith('named') else FAMILIES[c['family']][2] == BIN)
     return t
